@@ -2,7 +2,7 @@
 from core import Case, enc_b, enc_s
 from props.cardutil import tdes, corpus, digits, rb
 
-OBLIGATIONS = []
+OBLIGATIONS = ["Psec.Props.C09.cvv_eq_spec", "Psec.Props.C09.cvv_three_digits"]
 TRUSTED_BASE = ["Lean 4.33 kernel", "Spec/CardVerif.lean is my reading of the Visa CVV / Mastercard CVC algorithm", "correspondence harness and compiled driver"]
 RULE = ("corpus of inputs whose final block has 0/1/2 decimal nibbles first (second decimalisation pass), then a seeded search for more of them, "
         "then random CVKs x PAN lengths 0..19 x expiry x service code; non-trivial = accepted input; distinct = distinct driver lines")
